@@ -2227,18 +2227,26 @@ class VM:
                 try:
                     regex_internal = pattern._internal
                     is_global = "g" in pattern._flags
+                    is_sticky = "y" in pattern._flags
                     capture_count = regex_internal._capture_count
                     if is_global:
                         pattern.lastIndex = 0
 
                     result_parts = []
                     last_end = 0
-                    pos = 0
+                    pos = sticky_start(pattern) if is_sticky and not is_global else 0
 
+                    if is_sticky and not is_global and pos > len(s):
+                        pattern.lastIndex = 0
                     while pos <= len(s):
-                        # Create fresh regex VM for each search
-                        vm_regex = regex_internal._create_vm()
-                        match_result = vm_regex.search(s, pos)
+                        match_result = attempt(regex_internal, pos, is_sticky)
+                        if is_sticky and not is_global:
+                            # A sticky regex matches at lastIndex only, and moves it
+                            pattern.lastIndex = (
+                                0
+                                if match_result is None
+                                else match_result.index + len(match_result[0] or "")
+                            )
                         if match_result is None:
                             break
 
@@ -2329,6 +2337,18 @@ class VM:
                     i += 1
             return "".join(out)
 
+        def sticky_start(pattern):
+            """Where a sticky, non-global regex starts: its lastIndex (ToLength)."""
+            start = to_integer(pattern.lastIndex)
+            return max(0, start)
+
+        def attempt(regex_internal, pos, sticky):
+            """One RegExpBuiltinExec step: sticky regexes match at pos only."""
+            vm_regex = regex_internal._create_vm()
+            if sticky:
+                return vm_regex.match(s, pos) if pos <= len(s) else None
+            return vm_regex.search(s, pos)
+
         def match(*args):
             pattern = args[0] if args else None
             if pattern is None:
@@ -2341,9 +2361,11 @@ class VM:
 
             from .regex import RegExp as InternalRegExp
 
+            is_sticky = False
             if isinstance(pattern, JSRegExp):
                 regex_internal = pattern._internal
                 is_global = "g" in pattern._flags
+                is_sticky = "y" in pattern._flags
                 if is_global:
                     pattern.lastIndex = 0
             else:
@@ -2364,9 +2386,7 @@ class VM:
                     matches = []
                     pos = 0
                     while pos <= len(s):
-                        # Create fresh regex VM for each search
-                        vm_regex = regex_internal._create_vm()
-                        result = vm_regex.search(s, pos)
+                        result = attempt(regex_internal, pos, is_sticky)
                         if result is None:
                             break
                         matches.append(result[0])
@@ -2384,9 +2404,14 @@ class VM:
                     arr._elements = list(matches)
                     return arr
                 else:
-                    # Non-global: return first match with groups
-                    vm_regex = regex_internal._create_vm()
-                    result = vm_regex.search(s, 0)
+                    # Non-global: return first match with groups (a sticky regex
+                    # matches at its lastIndex only, and moves it)
+                    start = sticky_start(pattern) if is_sticky else 0
+                    result = attempt(regex_internal, start, is_sticky)
+                    if is_sticky:
+                        pattern.lastIndex = (
+                            0 if result is None else result.index + len(result[0] or "")
+                        )
                     if result is None:
                         return NULL
                     arr = JSArray()
@@ -2429,8 +2454,9 @@ class VM:
                 regex_internal = JSRegExp(to_string(pattern), "", poll_callback)._internal
 
             try:
-                vm_regex = regex_internal._create_vm()
-                result = vm_regex.search(s, 0)
+                # (search starts at 0 and leaves lastIndex alone; sticky: at 0 only)
+                sticky = isinstance(pattern, JSRegExp) and "y" in pattern._flags
+                result = attempt(regex_internal, 0, sticky)
                 return result.index if result else -1
             except RegexTimeoutError:
                 raise TimeLimitError("Regex execution timeout")
